@@ -110,8 +110,8 @@ Proof.
   rewrite (enc_pos_rel c fp fp' (genc_of c groups) (genc_of c groups') (present_in (mb_fp t0)) Hfp) with (b := bb) (p1 := pos).
   - exact H.
   - intros f Hf. destruct (Hs f Hf) as [Hx|[Hx _]]; [exact Hx|discriminate].
-  - intros f r Hgi Hfr Hm. apply Hg; assumption.
   - exact Hpos.
+  - intros f r _ Hgi Hfr Hm. apply Hg; assumption.
   - exact E.
 Qed.
 
@@ -132,10 +132,10 @@ Proof.
   - exact H.
   - intros f Hf. apply andb_true_iff in Hf. destruct Hf as [Hf1 Hf2]. apply negb_true_iff in Hf2. apply N.eqb_neq in Hf2.
     destruct (Hs f Hf1) as [Hx|[_ Hx]]; [exact Hx|contradiction].
-  - intros f r Hgi Hfr Hm. apply Hg; [exact Hgi| |exact Hm].
+  - apply pos_set_rel; assumption.
+  - intros f r _ Hgi Hfr Hm. apply Hg; [exact Hgi| |exact Hm].
     destruct (present_in (mb_fp t0) f) eqn:Ep; [|reflexivity].
     destruct (Hown f Ep) as [Hng _]. congruence.
-  - apply pos_set_rel; assumption.
   - exact E.
 Qed.
 
